@@ -237,14 +237,48 @@ def blank_definition(prog, rep, R):
     gen = prog.find(r"lexer::find_identifier_end_generic::\{closure#0\}$")
     gchars = sorted({v for k, v in consts_in(gen[0], ("char",))}) if len(gen) == 1 else []
     cl = prog.body(LX + "count_leading_whitespace")
-    cu = prog.find(r"lexer::count_unicode_whitespace::\{closure#0\}$")
-    if rep.check(cl is not None and len(cu) == 1, R, "anchor:blank-counters", "count_leading_whitespace / count_unicode_whitespace closure not found"):
-        ints = sorted({v for k, v in consts_in(cl) if k == "int" and v > 1})
-        rep.check(ints == [32, 127], R, "blank:ascii<=0x20", "count_leading_whitespace compares bytes against %s (expected 0x20 and 0x7F)" % ints, instance={"constants": ints})
-        chars = sorted({v for k, v in consts_in(cu[0], ("char",))})
-        rep.check(chars == [0x20, 0x3000], R, "blank:unicode<=0x20|U+3000", "count_unicode_whitespace treats %s as blank" % [hex(c) for c in chars], instance={"constants": [hex(c) for c in chars]})
-        rep.check(0x3000 in gchars, R, "AGREE:U+3000-excluded-from-identifiers", "U+3000 is blank but no longer excluded from identifier characters")
-        rep.check(len(cl.calls_to(LX + "count_unicode_whitespace")) == 1, R, "blank:ascii-counter-defers-on-high-bit", "count_leading_whitespace no longer defers to count_unicode_whitespace on a non-ASCII byte")
+    cuw = prog.body(LX + "count_unicode_whitespace")
+    if not rep.check(cl is not None and cuw is not None, R, "anchor:blank-counters", "count_leading_whitespace / count_unicode_whitespace not found"):
+        return
+
+    def family(b):
+        """the function, its closures and the lexer helpers it calls directly (a predicate may be a closure or an extracted fn)"""
+        out = [b] + [x for x in prog.bodies.values() if x.npath.startswith(b.npath + "::")]
+        for x in list(out):
+            for c in x.calls():
+                cb = prog.body(c.target or "")
+                if cb is not None and cb.npath.startswith(LX) and cb not in out and cb.npath not in (LX + "count_unicode_whitespace", LX + "count_leading_whitespace"):
+                    out.append(cb)
+        return out
+    ints = sorted({v for x in family(cl) for k, v in consts_in(x) if k == "int" and v > 1})
+    rep.check(ints == [32, 127], R, "blank:ascii<=0x20", "count_leading_whitespace compares bytes against %s (expected 0x20 and 0x7F)" % ints, instance={"constants": ints})
+    # the per-character predicate of the unicode counter, wherever it lives: run it on probe characters
+    from table import Table, TooComplex, run_concrete, eval_desc, vdesc, Unknown
+    probes = [0x00, 0x09, 0x0A, 0x0D, 0x20, 0x21, 0x41, 0x7F, 0x80, 0x85, 0xA0, 0x1680, 0x2003, 0x2028, 0x2FFF, 0x3000, 0x3001, 0x303F, 0xFEFF, 0x1F600]
+    preds = []
+    for x in family(cuw):
+        if x.locals[0]["ty"] != "bool" or x.loops():
+            continue
+        cparams = [i for i in range(1, x.arg_count + 1) if x.locals[i]["ty"].replace("&", "").strip() == "char"]
+        if len(cparams) != 1:
+            continue
+        preds.append((x, cparams[0]))
+    good = len(preds) >= 1
+    verdicts = {}
+    for x, pi in preds:
+        try:
+            tb = Table(prog, x, inline=1)
+            for ch in probes:
+                res, _ = run_concrete(tb, {"arg%d" % pi: ch})
+                verdicts[ch] = bool(eval_desc(vdesc(res), {"arg%d" % pi: ch}))
+                good &= verdicts[ch] == (ch <= 0x20 or ch == 0x3000)
+        except (TooComplex, Unknown) as e:
+            good = False
+            verdicts["error"] = str(e)
+    rep.check(good, R, "blank:unicode<=0x20|U+3000", "the per-character predicate of count_unicode_whitespace is not `c <= U+0020 || c == U+3000` on the probe characters: %s" % {hex(k) if isinstance(k, int) else k: v for k, v in verdicts.items() if isinstance(k, str) or v != (k <= 0x20 or k == 0x3000)},
+              instance={"predicates": [short(x.npath) for x, _ in preds], "probes": len(probes)})
+    rep.check(0x3000 in gchars, R, "AGREE:U+3000-excluded-from-identifiers", "U+3000 is blank but no longer excluded from identifier characters")
+    rep.check(any(c.target == LX + "count_unicode_whitespace" for x in family(cl) for c in x.calls()), R, "blank:ascii-counter-defers-on-high-bit", "count_leading_whitespace no longer defers to count_unicode_whitespace on a non-ASCII byte")
 
 
 def c13e(prog, rep):
